@@ -185,6 +185,11 @@ func (c *ConstantStruct) Link(scope Scope, t TypeSpec) (ConstantValue, error) {
 		return nil, constantValueCastError{Value: c, Type: t}
 	}
 
+	// The same literal may be cast to several struct types (a constant that
+	// is referred to as a value of another struct type): work on a copy so
+	// that the defaults of one type do not end up in the value of another.
+	c = &ConstantStruct{Fields: copyConstantFields(c.Fields)}
+
 	for _, field := range s.Fields {
 		fillingDefault := false
 		f, ok := c.Fields[field.Name]
@@ -238,6 +243,14 @@ func (c *ConstantStruct) Link(scope Scope, t TypeSpec) (ConstantValue, error) {
 	}
 
 	return c, nil
+}
+
+func copyConstantFields(fields map[string]ConstantValue) map[string]ConstantValue {
+	out := make(map[string]ConstantValue, len(fields))
+	for name, value := range fields {
+		out[name] = value
+	}
+	return out
 }
 
 // ConstantMap represents a map literal from the Thrift file.
